@@ -3,6 +3,7 @@ bounds / stubs / assumptions.  bin/check reads this; evidence files are generate
 the parsed solver output."""
 
 MEM_GB = 14
+MEM_GB_PLAYBACK = 44   # kani-driver parses the full CBMC json trace for concrete playback
 DEFAULT_TIMEOUT = {"quick": 600, "thorough": 3000}
 
 COMMON_ASSUMPTIONS = [
@@ -64,6 +65,130 @@ PROPS["C13"] = dict(
         H("c13::c13_latch_trace_3", "core", desc="3-decision trace vs independent fresh-run monitor", bounds="3 decisions, unwind 4"),
         H("c13::c13_latch_trace_release_reachable", "core", desc="vacuity witness: a release within 3 decisions is reachable"),
         H("c13::c13_proof_stamp_sites", "core", desc="delivery proof stamped only by an earned SRTLA ACK"),
+    ],
+)
+
+SEL_FUNCS = ["selection::select_connection_idx", "selection::apply_stall_gate", "selection::classic::select_connection",
+             "selection::enhanced::{select_connection, in_flight_cap_exceeded, in_flight_cap_packets, cc_soft_cap_multiplier}",
+             "SrtlaConnection::{is_timed_out, is_schedulable, get_score, phase_weight, update_stall_latch, update_silence_pull, "
+             "is_stalled, is_briefly_silent, effective_stall_stale_ms, silence_pull_window_ms, get_cached_quality_multiplier}"]
+SEL_BOUNDS = ("one selection over N fully symbolic links (every field the selectors/guards read: phase, connected, receive/proof stamps, "
+              "in-flight 0..=i32::MAX, window 1000..=60000, stall latch/pull state, weak / loss-degraded flags, CC target any u64, "
+              "smoothed RTT none or whole ms 0..5000; enhanced: bitrate 0..1e10, rtt_min any finite f64, cached quality multiplier in "
+              "[0.35, 1.133]), symbolic ConfigSnapshot (timeout 1000..60000, any thresholds incl. negative in-flight threshold and "
+              "ceiling below floor, guard/quality on or off), symbolic previous index incl. out of range, clock 1..2^48")
+
+PROPS["C03"] = dict(
+    functions=SEL_FUNCS,
+    bounds=SEL_BOUNDS + "; N = 2 (quick), 3 (thorough; classic also 4)",
+    stubs=[],
+    assumptions=["clock values <= 2^48 ms", "enhanced harnesses: 50 ms quality cache fresh (exp() path decided separately in C11)"],
+    outside="N > 4 links; the stale-quality-cache path (exp) in the enhanced selector is covered by C11's contract-stubbed harness",
+    harnesses=[
+        H("c03::c03_classic_n2", "core", desc="C03/C04(i)/C12(a) on one classic selection, 2 links", bounds="N=2"),
+        H("c03::c03_enhanced_n2", "core", desc="C03/C04(i)/C12(a) on one enhanced selection, 2 links", bounds="N=2"),
+        H("c03::c03_classic_n3", "core", tier="thorough", desc="same, 3 links", bounds="N=3", timeout=3000),
+        H("c03::c03_classic_n4", "core", tier="thorough", desc="same, 4 links", bounds="N=4", timeout=3000),
+        H("c03::c03_enhanced_n3", "core", tier="thorough", desc="same, 3 links", bounds="N=3", timeout=3000),
+    ],
+)
+
+PROPS["C15"] = dict(
+    functions=["srtla_protocol::{get_packet_type, get_srt_sequence_number, is_srt_data_retransmit, is_srtla_reg1, is_srtla_reg2, is_srtla_reg3, "
+               "is_srtla_keepalive, is_srt_ack, extract_keepalive_timestamp, extract_keepalive_conn_info, parse_srt_ack, parse_srtla_ack, "
+               "parse_srt_nak, create_reg1_packet, create_reg2_packet, create_keepalive_packet, create_keepalive_packet_ext, create_ack_packet}"],
+    bounds="decoders: every byte string of 0..=24 bytes (ext. keepalive decoder 0..=40; REG predicates 256..=260), symbolic length and bytes, "
+           "all 65536 type codes; NAK differential: ranges <= 4 wide; NAK cap: one range with any 32-bit bounds (unwind 1003; thorough: two "
+           "ranges, 20 bytes); builders: every argument value, <= 4 ACK numbers",
+    stubs=["smallvec::SmallVec::push -> count-only push (c15_nak_*_cap harnesses only: the cap is a claim about the number of entries)"],
+    assumptions=["smallvec::SmallVec modelled as an array-backed sequence in the Kani build"],
+    outside="byte strings of 25..1500 bytes (the decoder loops are uniform in the length; not covered by the bound); "
+            "NAK frames mixing more than two ranges",
+    harnesses=[
+        H("c15::c15_fixed_decoders_24", "proto", desc="type/seq/retransmit/REG3/keepalive ts/SRT ACK vs reference decoder", bounds="len 0..=24"),
+        H("c15::c15_conn_info_decoder_40", "proto", desc="extended keepalive decoder vs literal offsets", bounds="len 0..=40"),
+        H("c15::c15_reg_predicates_258", "proto", desc="REG1/REG2 exact length 258", bounds="len 256..=260"),
+        H("c15::c15_srtla_ack_decoder_24", "proto", desc="SRTLA ACK list vs reference", bounds="len 0..=24"),
+        H("c15::c15_nak_decoder_16", "proto", desc="NAK list vs reference decoder (singles + ranges)", bounds="len 0..=16, ranges <= 3 wide"),
+        H("c15::c15_nak_singles_24", "proto", desc="NAK singles vs layout", bounds="len 0..=24, no range openers"),
+        H("c15::c15_nak_range_cap", "proto", desc="1000-entry cap incl. range ending at 0xFFFFFFFF (+ trailing single)", bounds="one range, any u32 bounds, range loop unwound 1003 (--unwindset), other loops 6; push stubbed to count-only", timeout=1500,
+          unwindset=[dict(func="parse_srt_nak", pick="last_line", n=1003)]),
+        H("c15::c15_nak_two_ranges_cap", "proto", tier="thorough", desc="cap on the total of two ranges", bounds="two ranges, any u32 bounds, range loop unwound 1003 (--unwindset); push stubbed to count-only", timeout=3000,
+          unwindset=[dict(func="parse_srt_nak", pick="last_line", n=1003)]),
+        H("c15::c15_build_reg1_reg2", "proto", desc="REG1/REG2 builders: 258 bytes, type + id"),
+        H("c15::c15_build_keepalives", "proto", desc="keepalive builders round-trip, literal layout"),
+        H("c15::c15_build_ack", "proto", desc="SRTLA ACK builder round-trip", bounds="<= 4 numbers"),
+    ],
+)
+
+PROPS["C08"] = dict(
+    functions=["SrtlaConnection::is_timed_out", "ReconnectionState::{should_attempt_reconnect, backoff_delay, record_attempt, mark_success}",
+               "SrtlaConnection::{reset_for_reconnect, mark_for_recovery, clear_pre_registration_state, reset_core_state}",
+               "BatchSender::reset, CongestionControl::reset, RttTracker::reset, BitrateTracker::reset"],
+    bounds="one call from an arbitrary link / reconnection state: every field symbolic (failure count any u32, clocks 0..2^48, timeout "
+           "1000..60000); reset harness: <= 2 outstanding and <= 2 queued packets",
+    stubs=[],
+    assumptions=["clock values <= 2^48 ms", "decision clock >= 1 (0 is the 'never' sentinel)"],
+    outside="'connected again within 30 s once the path delivers' and 'survivors keep carrying throughout' are liveness properties of the whole "
+            "event loop with real sockets, timers and a receiver: not encodable (the per-decision part of the latter is C03). The housekeeping "
+            "loop's use of these predicates is decided by the shell harness when present.",
+    harnesses=[
+        H("c08::c08_timed_out_matches_rule", "core", desc="is_timed_out == documented rule; independent of routing penalties"),
+        H("c08::c08_retry_policy", "core", desc="retry spacing >= 1 s / 5 s, back-off table, cap 120 s, retries never stop"),
+        H("c08::c08_record_attempt_spacing", "core", desc="spacing after a recorded attempt; saturating failure counter"),
+        H("c08::c08_reset_poststates", "core", desc="teardown/REG3 post-states: default window, zero in-flight, registering/warming, guard state clear"),
+    ],
+)
+
+PROPS["C10"] = dict(
+    functions=SEL_FUNCS + ["congestion::classic::handle_srtla_ack_specific", "SrtlaConnection::handle_srtla_ack_global", "CongestionControl::handle_nak"],
+    bounds=SEL_BOUNDS + "; 0..2 queued packets per link; N = 2 (quick), 3 and 4 (thorough); window rules: all i32 in-flight values",
+    stubs=["alloc::fmt::format -> empty String"],
+    assumptions=["clock values <= 2^48 ms"],
+    outside="'no time-based recovery in classic' and 'every packet kind' (retransmit / critical-window override) are shell clauses decided "
+            "by the shell harnesses when present; closed-loop histories are covered inductively (the reference is a function of the current state)",
+    harnesses=[
+        H("c10::c10_classic_reference_n2", "core", desc="classic choice == reference argmax, guard off", bounds="N=2"),
+        H("c06::c06_ack_classic_step", "core", desc="+29 iff in_flight*1000 > window (unbounded integers), capped"),
+        H("c06::c06_conn_events_step", "core", desc="global +1 iff connected and ever heard; -100 per charged NAK; bounds"),
+        H("c06::c06_nak_step", "core", desc="-100 floored at 1000"),
+        H("c10::c10_classic_reference_n3", "core", tier="thorough", bounds="N=3", timeout=3000),
+        H("c10::c10_classic_reference_n4", "core", tier="thorough", bounds="N=4", timeout=3000),
+    ],
+)
+
+PROPS["C12"] = dict(
+    functions=SEL_FUNCS,
+    bounds=SEL_BOUNDS + "; N = 2 (quick), 3 (thorough)",
+    stubs=[],
+    assumptions=["clock values <= 2^48 ms", "enhanced harnesses: 50 ms quality cache fresh"],
+    outside="histories of selections are covered inductively: each selection starts from an arbitrary state (any latch/pull history)",
+    harnesses=[
+        H("c03::c03_classic_n2", "core", desc="projection of liveness/accounting state unchanged by a classic selection"),
+        H("c03::c03_enhanced_n2", "core", desc="projection unchanged by an enhanced selection"),
+        H("c10::c12_guard_off_classic_n2", "core", desc="guard off: flags cleared, decision == decision with clean stall history"),
+        H("c10::c12_guard_off_enhanced_n2", "core", desc="same, enhanced"),
+        H("c13::c13_latch_step", "core", desc="latch update touches guard-private fields only"),
+        H("c10::c12_guard_off_classic_n3", "core", tier="thorough", bounds="N=3", timeout=3000),
+        H("c03::c03_classic_n3", "core", tier="thorough", bounds="N=3", timeout=3000),
+    ],
+)
+
+PROPS["C14"] = dict(
+    functions=["SrtlaConnection::{keepalive_packet, needs_keepalive, needs_rtt_measurement, get_smooth_rtt_ms}",
+               "RttTracker::{handle_keepalive_response, record_keepalive_sent, needs_measurement}", "KalmanFilter::update",
+               "srtla_protocol::{create_keepalive_packet_ext, extract_keepalive_timestamp, extract_keepalive_conn_info}"],
+    bounds="frame: any link state (window, in-flight, loss count, bitrate 0..1e10, RTT whole ms 0..5000, any 64-bit conn id), clock 1..2^48; "
+           "echo filter: every echo of 0..=16 bytes, any clocks; Kalman: one update from |x|,|v| <= 1e6, covariances in [0,1e6], sample 1..10000 ms",
+    stubs=["RttTracker::update_estimate -> sample recorder (c14_echo_filter only; the real estimator is run in c14_smooth_rtt_sane)"],
+    assumptions=["clock values <= 2^48 ms", "Kalman pre-state bounded and covariance entries non-negative (stated bound)"],
+    outside="the cadence clause (gap between keepalives <= two housekeeping periods) is a property of the housekeeping loop + tokio timer; its "
+            "per-tick part is decided by the shell harness when present. Echo bytes after byte 16 are ignored by the parser (bound: 16 bytes).",
+    harnesses=[
+        H("c14::c14_keepalive_frame", "core", desc="38-byte frame, literal layout, telemetry = link state, probe arming"),
+        H("c14::c14_need_predicates", "core", desc="needs_keepalive / needs_rtt_measurement equal their rules"),
+        H("c14::c14_echo_filter", "core", desc="sample only from an outstanding probe's echo with 0 < RTT <= 10 s; duplicates ignored"),
+        H("c14::c14_smooth_rtt_sane", "core", desc="smoothed RTT >= 0 and finite after a real Kalman update", timeout=1500),
     ],
 )
 
